@@ -87,11 +87,35 @@ where
     if r != Ok(e) {
         return bad("frame.add_amp", format!("{tag}: add_amp gave {r:?}, per-channel gives {e:?}"));
     }
-    let gains: [S::Float; N] = core::array::from_fn(|c| S::gain([0.5, 0.25, 1.0, 0.0, 0.125][c % 5]));
-    let r = catch(|| f.mul_amp(gains));
-    let e: [S; N] = core::array::from_fn(|c| f[c].mul_amp(gains[c]));
-    if r != Ok(e) {
-        return bad("frame.mul_amp", format!("{tag}: mul_amp gave {r:?}, per-channel gives {e:?}"));
+    // gain frames: per-channel different, uniform (all 0, all 1, all 1/2), a single non-zero channel,
+    // a single zero channel
+    let mut gain_frames: Vec<[S::Float; N]> = vec![core::array::from_fn(|c| S::gain([0.5, 0.25, 1.0, 0.0, 0.125][c % 5]))];
+    for g in [0.0, 1.0, 0.5] {
+        gain_frames.push([S::gain(g); N]);
+    }
+    for k in [0, N / 2, N - 1] {
+        gain_frames.push(core::array::from_fn(|c| S::gain(if c == k { 0.5 } else { 0.0 })));
+        gain_frames.push(core::array::from_fn(|c| S::gain(if c == k { 0.0 } else { 0.5 })));
+    }
+    for gains in gain_frames {
+        let r = catch(|| f.mul_amp(gains));
+        let e: [S; N] = core::array::from_fn(|c| f[c].mul_amp(gains[c]));
+        if r != Ok(e) {
+            return bad("frame.mul_amp", format!("{tag}: mul_amp by the gain frame {gains:?} gave {r:?}, per-channel gives {e:?}"));
+        }
+    }
+    // offset frames: all zero, and (position-coded contents only) uniform small / single channel
+    let mut off_frames: Vec<[S::Signed; N]> = vec![[S::zero_offset(); N]];
+    if coded {
+        off_frames.push([S::small_offset(); N]);
+        off_frames.push(core::array::from_fn(|c| if c == N - 1 { S::small_offset() } else { S::zero_offset() }));
+    }
+    for offs in off_frames {
+        let r = catch(|| f.add_amp(offs));
+        let e: [S; N] = core::array::from_fn(|c| f[c].add_amp(offs[c]));
+        if r != Ok(e) {
+            return bad("frame.add_amp", format!("{tag}: add_amp of the offset frame {offs:?} gave {r:?}, per-channel gives {e:?}"));
+        }
     }
     // signed / float conversion
     let r: [S::Signed; N] = f.to_signed_frame();
@@ -248,7 +272,7 @@ fn main() {
         };
         ctx.finish_replay(r.map(|(k, m)| format!("{k}: {m}")));
     }
-    ctx.rule("frames: every (sample format of 14, N in 1..=32) x 9 contents (position-coded + 8 rotations of the boundary-value vector MIN/MAX/EQ/...): map, zip_map (closure call order recorded), offset_amp, scale_amp(4 gains), add_amp and mul_amp with per-channel different arguments, to_signed_frame, to_float_frame, EQUILIBRIUM, CHANNELS, from_fn (index order), from_samples over iterators of every length 0..=N+1 and four kinds of size hint, plus frame.channels() (Some iff len>=N; on success exactly the first N samples are taken), channels() (exact size), channels_ref/channels_mut forwards and backwards, channel(i)/channel_mut(i) for i in 0..=N+1, channel_unchecked; oracle = the array built by applying the sample operation to channel 0..N-1 in order; distinct by (format, N, content)");
+    ctx.rule("frames: every (sample format of 14, N in 1..=32) x 9 contents (position-coded + 8 rotations of the boundary-value vector MIN/MAX/EQ/...): map, zip_map (closure call order recorded), offset_amp, scale_amp(4 gains), add_amp and mul_amp with argument frames that are per-channel different / uniform (all 0, all 1, all 1/2) / a single non-zero or single zero channel, to_signed_frame, to_float_frame, EQUILIBRIUM, CHANNELS, from_fn (index order), from_samples over iterators of every length 0..=N+1 and four kinds of size hint, plus frame.channels() (Some iff len>=N; on success exactly the first N samples are taken), channels() (exact size), channels_ref/channels_mut forwards and backwards, channel(i)/channel_mut(i) for i in 0..=N+1, channel_unchecked; oracle = the array built by applying the sample operation to channel 0..N-1 in order; distinct by (format, N, content)");
     let mut evals = 0u64;
     for (fmt, n, f) in &table {
         for variant in 0..9usize {
